@@ -11,7 +11,7 @@ use crate::e2e::RealNet;
 use crate::gen;
 use crate::refmetric::{ref_distance, to_u256};
 use ant_networking::{GetRecordCfg, GetRecordError, NetworkError};
-use ant_protocol::storage::{try_serialize_record, RecordKind, Scratchpad, Transaction};
+use ant_protocol::storage::{try_deserialize_record, try_serialize_record, RecordKind, Scratchpad, Transaction};
 use ant_protocol::NetworkAddress;
 use ant_registers::{Permissions, RegisterOp, SignedRegister};
 use libp2p::identity::Keypair;
@@ -1714,5 +1714,429 @@ fn vault_inner(cx: &mut Cx, net: &RealNet, n: usize) -> Option<()> {
         cx.nontrivial(&("vault-realnet", cx.index, n, format!("{assign:?}")));
     }
     cx.sample(json!({"lane": "real network", "holders": n, "versions": versions.iter().map(|v| format!("{:?}#{}", v.0, v.1)).collect::<Vec<_>>()}));
+    Some(())
+}
+
+// ------------------------------------------------------------------------------------------------------------------
+/// C07 on the real network: mutable records are created by paid uploads and then updated through the real client put
+/// path (kad put -> the holder's real `UnverifiedRecord` handling -> validation in a spawned task -> store -> fresh /
+/// periodic replication), one update at a time, several at once, and by rounds of the real periodic replication.
+/// After every round the network is brought to logical quiescence and every node's copy of every key is judged.
+pub fn c07_case(cx: &mut Cx) {
+    let n = cx.rng.gen_range(5..=7);
+    let Some(mut net) = start(cx, "c07r", &vec![true; n]) else { return };
+    if c07_inner(cx, &mut net, n).is_none() {
+        cx.count("realnet:cases-abandoned");
+    }
+    net.shutdown();
+}
+
+const C07_TAG: &str = ":concurrent-deliveries-to-one-key";
+
+struct Track {
+    kind: Kind,
+    key: RecordKey,
+    owner: bls::SecretKey,
+    /// record values of every validly signed scratchpad of the owner handed to the network: (counter, value)
+    valid_pads: Vec<(u64, Vec<u8>)>,
+    valid_txs: BTreeSet<Transaction>,
+    valid_ops: BTreeSet<RegisterOp>,
+    /// the client's own replica of the register (what it extends and sends)
+    reg: Option<SignedRegister>,
+    next_counter: u64,
+}
+
+/// what one delivery, if taken, must leave behind on a node that already held the key
+#[derive(Clone)]
+enum Contribution {
+    Nothing,
+    Pad(u64),
+    Txs(BTreeSet<Transaction>),
+    Ops(BTreeSet<RegisterOp>),
+}
+
+fn c07_delivery(cx: &mut Cx, net: &RealNet, tr: &mut Track, target: usize, stranger: &Keypair) -> (Record, String, Contribution) {
+    let other = gen::bls_sk(&mut cx.rng);
+    match tr.kind {
+        Kind::Pad => {
+            let counter = match cx.rng.gen_range(0..10) {
+                0..=5 => {
+                    tr.next_counter = tr.next_counter.saturating_add(cx.rng.gen_range(1..4));
+                    tr.next_counter
+                }
+                6..=7 => cx.rng.gen_range(0..tr.next_counter.max(1)),
+                _ => tr.next_counter,
+            };
+            let data = gen::bytes_r(&mut cx.rng, 0, 120);
+            match cx.rng.gen_range(0..100) {
+                0..=69 => {
+                    let r = gen::pad_record(&gen::pad(&tr.owner, counter, &data, 0));
+                    tr.valid_pads.push((counter, r.value.clone()));
+                    (r, format!("valid#{counter}"), Contribution::Pad(counter))
+                }
+                70..=76 => {
+                    let mut raw = gen::RawPad::from_pad(&gen::pad(&tr.owner, counter, &data, 0));
+                    raw.signature = None;
+                    (gen::pad_record(&raw.to_pad()), format!("unsigned#{counter}"), Contribution::Nothing)
+                }
+                77..=84 => {
+                    let mut raw = gen::RawPad::from_pad(&gen::pad(&tr.owner, counter, &data, 0));
+                    raw.sign(&other);
+                    (gen::pad_record(&raw.to_pad()), format!("signed-by-other#{counter}"), Contribution::Nothing)
+                }
+                85..=92 => {
+                    let mut r = gen::pad_record(&gen::pad(&other, counter, &data, 0));
+                    r.key = tr.key.clone();
+                    (r, format!("other-owners-pad#{counter}"), Contribution::Nothing)
+                }
+                _ => {
+                    let mut raw = gen::RawPad::from_pad(&gen::pad(&tr.owner, counter, &data, 0));
+                    raw.encrypted_data = bytes::Bytes::from(gen::bytes_r(&mut cx.rng, 1, 50));
+                    (gen::pad_record(&raw.to_pad()), format!("payload-swapped#{counter}"), Contribution::Nothing)
+                }
+            }
+        }
+        Kind::Reg => {
+            let base = tr.reg.clone().expect("register replica");
+            let addr = *base.address();
+            match cx.rng.gen_range(0..10) {
+                0..=5 => {
+                    let mut r = base.clone();
+                    let mut good = BTreeSet::new();
+                    for _ in 0..cx.rng.gen_range(1..=2) {
+                        let op = gen::reg_op(addr, gen::bytes_r(&mut cx.rng, 1, 40), BTreeSet::new(), &tr.owner);
+                        if r.add_op(op.clone()).is_ok() {
+                            good.insert(op);
+                        }
+                    }
+                    tr.valid_ops.extend(good.iter().cloned());
+                    // the client's replica moves on only sometimes: later deliveries are then siblings of this one
+                    if cx.rng.gen_bool(0.6) {
+                        tr.reg = Some(r.clone());
+                    }
+                    (gen::reg_record(&r), format!("reg[+{}]", good.len()), Contribution::Ops(r.ops().clone()))
+                }
+                6..=7 => {
+                    // a replica carrying an operation by somebody who may not write (owner-only register)
+                    let bad = gen::reg_op(addr, vec![6, 6, 6], BTreeSet::new(), &other);
+                    let mut ops: BTreeSet<RegisterOp> = base.ops().clone();
+                    ops.insert(bad);
+                    let sig = tr.owner.sign(base.base_register().bytes().expect("bytes"));
+                    (gen::reg_record(&SignedRegister::new(base.base_register().clone(), sig, ops)), "reg[unauthorised-op]".into(), Contribution::Nothing)
+                }
+                8 => {
+                    // an old replica again (stale)
+                    (gen::reg_record(&base), "reg[stale]".into(), Contribution::Ops(base.ops().clone()))
+                }
+                _ => {
+                    // a register of another base under this key
+                    let o = gen::register(&tr.owner, XorName(cx.rng.gen()), Permissions::new_anyone_can_write());
+                    let mut r = gen::reg_record(&o);
+                    r.key = tr.key.clone();
+                    (r, "reg[other-base]".into(), Contribution::Nothing)
+                }
+            }
+        }
+        _ => {
+            // a further transaction of the owner, paid to the target (or forged / of another owner: never to be held)
+            let n = net.nodes.len();
+            let variant = cx.rng.gen_range(0..10);
+            let (tx, label, good) = match variant {
+                0..=6 => (gen::transaction(&mut cx.rng, &tr.owner), "tx[valid]", true),
+                7..=8 => {
+                    let mut t = gen::transaction(&mut cx.rng, &tr.owner);
+                    t.content[0] ^= 1;
+                    (t, "tx[forged]", false)
+                }
+                _ => (tr.valid_txs.iter().next().cloned().unwrap_or_else(|| gen::transaction(&mut cx.rng, &tr.owner)), "tx[duplicate]", true),
+            };
+            let env = PayEnv { node_kp: net.nodes[target].kp.clone(), close: (0..n).filter(|j| *j != target).map(|j| net.nodes[j].kp.clone()).collect(), stranger: stranger.clone() };
+            let proof = build_proof(&mut cx.rng, &env, *tx.address().xorname(), 3, Conds::all(), &net.stub);
+            let rec = gen::record(tr.key.clone(), try_serialize_record(&(proof, tx.clone()), RecordKind::TransactionWithPayment).expect("ser").to_vec());
+            if good {
+                tr.valid_txs.insert(tx.clone());
+                (rec, label.into(), Contribution::Txs([tx].into_iter().collect()))
+            } else {
+                (rec, label.into(), Contribution::Nothing)
+            }
+        }
+    }
+}
+
+fn c07_inner(cx: &mut Cx, net: &mut RealNet, n: usize) -> Option<()> {
+    let stranger = gen::ed_keypair(&mut cx.rng);
+    let mut kinds = vec![Kind::Pad, Kind::Reg, Kind::Tx];
+    kinds.push(*[Kind::Pad, Kind::Reg, Kind::Tx].choose(&mut cx.rng).expect("nonempty"));
+    let items: Vec<Mutable> = kinds.iter().map(|k| make_mutable(&mut cx.rng, *k)).collect();
+    macro_rules! harness {
+        ($e:expr) => {
+            match $e {
+                Ok(v) => v,
+                Err(e) => {
+                    cx.count("realnet:abandoned:harness-error");
+                    cx.log(e);
+                    return None;
+                }
+            }
+        };
+    }
+    // ---- creation: paid uploads to one of the three closest nodes
+    let mut tracks: Vec<Track> = vec![];
+    for it in &items {
+        let order = net.by_closeness(&it.key);
+        let target = order[cx.rng.gen_range(0..3)];
+        match upload_valid(cx, net, it, target, &stranger) {
+            Ok(()) => {}
+            Err(e) if e == "WATCHDOG" => {
+                cx.count("realnet:abandoned:put-watchdog");
+                return None;
+            }
+            Err(e) => cx.log(format!("paid upload answered {e}")),
+        }
+        if !harness!(wait_held(net, target, &it.key)) {
+            cx.count("realnet:abandoned:upload-not-visible-at-its-target");
+            return None;
+        }
+        let h0 = held(it.kind, Some(it.first.clone()));
+        let mut tr = Track { kind: it.kind, key: it.key.clone(), owner: it.owner.clone(), valid_pads: vec![], valid_txs: BTreeSet::new(), valid_ops: BTreeSet::new(), reg: None, next_counter: 0 };
+        match &h0 {
+            Held::Pad(c, v) => {
+                tr.valid_pads.push((*c, v.clone()));
+                tr.next_counter = *c;
+            }
+            Held::Txs(s) => tr.valid_txs = s.clone(),
+            Held::Reg(s) => {
+                tr.valid_ops = s.clone();
+                tr.reg = try_deserialize_record::<SignedRegister>(&it.first).ok();
+            }
+            _ => {}
+        }
+        tracks.push(tr);
+    }
+    settle(cx, net)?;
+    let sample = |net: &RealNet, tracks: &Vec<Track>| -> Result<Vec<Vec<Held>>, String> {
+        let mut out = vec![];
+        for tr in tracks {
+            let mut row = vec![];
+            for i in 0..n {
+                row.push(if net.nodes[i].net.is_some() { held(tr.kind, net.local(i, &tr.key)?) } else { Held::None });
+            }
+            out.push(row);
+        }
+        Ok(out)
+    };
+    let mut last = harness!(sample(net, &tracks));
+    let rounds = cx.rng.gen_range(4..=8);
+    let restart_after = if cx.rng.gen_bool(0.33) { Some(cx.rng.gen_range(1..rounds)) } else { None };
+    let mut labels: Vec<String> = vec![];
+    let (mut saw_stale_or_invalid, mut saw_concurrent) = (false, false);
+    for round in 0..rounds {
+        let k = cx.rng.gen_range(0..tracks.len());
+        let holders: Vec<usize> = (0..n).filter(|i| last[k][*i] != Held::None).collect();
+        if holders.is_empty() {
+            cx.count("realnet:c07:key-held-nowhere");
+            continue;
+        }
+        #[derive(PartialEq, Clone, Copy, Debug)]
+        enum Mode {
+            Single,
+            Concurrent,
+            Replication,
+        }
+        let mode = match cx.rng.gen_range(0..100) {
+            0..=54 => Mode::Single,
+            55..=84 => Mode::Concurrent,
+            _ => Mode::Replication,
+        };
+        // A shortfall after deliveries that overlapped in time on one key is the recorded per-key read-check-write race
+        // (known finding). Deliveries overlap when several are sent at once, and may overlap when the holders of the key
+        // held different versions before the round (a real replication timer may then bring another version while the
+        // single delivery is being validated). Everything else is a fresh signature.
+        let diverged = holders.iter().any(|i| last[k][*i] != last[k][holders[0]]);
+        let tag = if mode == Mode::Single && !diverged { "" } else { C07_TAG };
+        // (record, destination, contribution, target)
+        let mut sends: Vec<(Record, Option<Vec<PeerId>>, Contribution, usize, String)> = vec![];
+        if mode != Mode::Replication {
+            let count = if mode == Mode::Single { 1 } else { cx.rng.gen_range(2..=3) };
+            for _ in 0..count {
+                let target = *holders.choose(&mut cx.rng).expect("nonempty");
+                let (rec, label, contrib) = c07_delivery(cx, net, &mut tracks[k], target, &stranger);
+                if matches!(contrib, Contribution::Nothing) || label.contains("stale") || label.contains("duplicate") {
+                    saw_stale_or_invalid = true;
+                }
+                // transactions carry a payment for their target; the others go to one holder or to every close node
+                let to = if tracks[k].kind == Kind::Tx || cx.rng.gen_bool(0.7) { Some(vec![net.nodes[target].peer]) } else { None };
+                cx.count(&format!("realnet:c07:deliveries:{:?}", tracks[k].kind));
+                labels.push(format!("{round}:{mode:?}:{label}"));
+                sends.push((rec, to, contrib, target, label));
+            }
+            let client = net.client.clone();
+            let ups: Vec<(Record, Option<Vec<PeerId>>)> = sends.iter().map(|s| (s.0.clone(), s.1.clone())).collect();
+            let results: Vec<Result<(), String>> = net.ctl.block_on(async move {
+                let mut hs = vec![];
+                for (rec, to) in ups {
+                    let c = client.clone();
+                    hs.push(tokio::spawn(async move {
+                        let cfg = ant_networking::PutRecordCfg { put_quorum: Quorum::One, retry_strategy: None, use_put_record_to: to, verification: None };
+                        match tokio::time::timeout(crate::e2e::OP_TIMEOUT, c.put_record(rec, &cfg)).await {
+                            Ok(r) => r.map_err(|e| format!("{e:?}")),
+                            Err(_) => Err("WATCHDOG".into()),
+                        }
+                    }));
+                }
+                let mut out = vec![];
+                for h in hs {
+                    out.push(h.await.unwrap_or_else(|e| Err(format!("join: {e}"))));
+                }
+                out
+            });
+            if results.iter().any(|r| matches!(r, Err(e) if e == "WATCHDOG")) {
+                cx.count("realnet:abandoned:put-watchdog");
+                return None;
+            }
+            cx.count(&format!("realnet:c07:rounds:{mode:?}"));
+            if mode == Mode::Concurrent {
+                saw_concurrent = true;
+            }
+        } else {
+            let mut order: Vec<usize> = (0..n).filter(|i| net.nodes[*i].net.is_some()).collect();
+            order.shuffle(&mut cx.rng);
+            for i in order {
+                harness!(net.trigger_replication(i));
+            }
+            cx.count("realnet:c07:rounds:Replication");
+        }
+        settle(cx, net)?;
+        let mut now = harness!(sample(net, &tracks));
+        // ---- progress (single deliveries to a node that held the key): judged only when the shortfall persists over
+        // three further quiescent samples
+        let short_of = |have: &Held, c: &Contribution| -> bool {
+            match (have, c) {
+                (_, Contribution::Nothing) => false,
+                (Held::Pad(hc, _), Contribution::Pad(c)) => hc < c,
+                (Held::Txs(h), Contribution::Txs(t)) => !t.is_subset(h),
+                (Held::Reg(h), Contribution::Ops(o)) => !o.is_subset(h),
+                _ => true,
+            }
+        };
+        for (_, to, contrib, target, label) in &sends {
+            if to.is_none() || last[k][*target] == Held::None {
+                continue;
+            }
+            let mut tries = 0;
+            while short_of(&now[k][*target], contrib) && tries < 3 {
+                tries += 1;
+                std::thread::sleep(Duration::from_secs(1));
+                settle(cx, net)?;
+                now = harness!(sample(net, &tracks));
+            }
+            cx.eval();
+            if short_of(&now[k][*target], contrib) {
+                let base = match tracks[k].kind {
+                    Kind::Pad => "scratchpad-update-lost",
+                    Kind::Tx => "transaction-lost",
+                    _ => "register-op-lost",
+                };
+                let sig = if tag.is_empty() { format!("realnet:{base}") } else { format!("{base}{tag}") };
+                if !tag.is_empty() {
+                    cx.count("realnet:c07:shortfall-after-overlapping-deliveries(the-recorded-race-on-real-interleavings)");
+                }
+                cx.violation(sig, format!("{label} was sent to node {target}, which held {} before; four quiescent samples later it holds {}", short(&last[k][*target]), short(&now[k][*target])), json!({"nodes": n, "round": round, "mode": format!("{mode:?}"), "labels": labels}));
+            } else {
+                cx.count("realnet:c07:deliveries-reflected-at-their-holder");
+            }
+        }
+        // ---- safety on every node and key
+        // (a copy read back at quiescence can never be undercut by the race: every later validation reads at least it)
+        for (kk, tr) in tracks.iter().enumerate() {
+            for i in 0..n {
+                if net.nodes[i].net.is_none() {
+                    continue;
+                }
+                cx.eval();
+                let w = json!({"nodes": n, "round": round, "node": i, "mode": format!("{mode:?}"), "kind": format!("{:?}", tr.kind), "labels": labels});
+                match (&now[kk][i], &last[kk][i]) {
+                    (Held::Unreadable, _) => cx.violation("realnet:stored-mutable-record-undecodable", format!("node {i}"), w),
+                    (Held::Pad(c, v), prev) => {
+                        if !tr.valid_pads.iter().any(|(_, pv)| pv == v) {
+                            cx.violation("realnet:stored-scratchpad-not-owner-signed", format!("node {i} holds a scratchpad (counter {c}) that is none of the validly signed versions handed out"), w.clone());
+                        }
+                        if let Held::Pad(pc, pv) = prev {
+                            if c < pc {
+                                cx.violation("realnet:scratchpad-counter-regressed", format!("node {i}: stored counter went from {pc} to {c}"), w);
+                            } else if c == pc && v != pv {
+                                cx.violation("realnet:scratchpad-replaced-at-equal-counter", format!("node {i}: the stored scratchpad changed while its counter stayed {c}"), w);
+                            }
+                        }
+                    }
+                    (Held::Txs(s), prev) => {
+                        if !s.is_subset(&tr.valid_txs) {
+                            cx.violation("realnet:invalid-or-foreign-transaction-stored", format!("node {i} holds a transaction that is not a validly signed one of the owner"), w.clone());
+                        }
+                        if crate::c09::tx_duplicates(&net.local(i, &tr.key).ok().flatten()) {
+                            cx.violation("realnet:transaction-listed-twice", format!("node {i}"), w.clone());
+                        }
+                        if let Held::Txs(p) = prev {
+                            if !p.is_subset(s) {
+                                cx.violation("realnet:transaction-set-shrank", format!("node {i}: {} -> {} transactions, losing some", p.len(), s.len()), w);
+                            }
+                        }
+                    }
+                    (Held::Reg(s), prev) => {
+                        if !s.is_subset(&tr.valid_ops) {
+                            cx.violation("realnet:inadmissible-register-op-stored", format!("node {i} holds a register operation that is not a permitted one handed out for it"), w.clone());
+                        }
+                        if let Held::Reg(p) = prev {
+                            if !p.is_subset(s) {
+                                cx.violation("realnet:register-ops-shrank", format!("node {i}: {} -> {} operations, losing some", p.len(), s.len()), w);
+                            }
+                        }
+                    }
+                    (Held::None, prev) if *prev != Held::None => cx.count("realnet:c07:record-no-longer-held"),
+                    _ => {}
+                }
+            }
+        }
+        last = now;
+        // ---- a node holding something is torn down at quiescence and restarted over its directory
+        if restart_after == Some(round) {
+            let cands: Vec<usize> = (0..n).filter(|i| last.iter().any(|row| row[*i] != Held::None)).collect();
+            if let Some(victim) = cands.choose(&mut cx.rng).cloned() {
+                net.crash(victim);
+                if let Err(e) = net.restart(victim, FORM_WATCHDOG) {
+                    cx.count("realnet:abandoned:restart");
+                    cx.log(e);
+                    return None;
+                }
+                if !net.wait_formed(Instant::now() + FORM_WATCHDOG) {
+                    cx.count("realnet:abandoned:formation");
+                    return None;
+                }
+                settle(cx, net)?;
+                let after = harness!(sample(net, &tracks));
+                for (kk, tr) in tracks.iter().enumerate() {
+                    cx.eval();
+                    let w = json!({"nodes": n, "round": round, "node": victim, "kind": format!("{:?}", tr.kind), "labels": labels});
+                    // whatever joins through replication after the restart can only add
+                    let ok = match (&last[kk][victim], &after[kk][victim]) {
+                        (Held::None, _) => true,
+                        (Held::Pad(pc, pv), Held::Pad(c, v)) => c > pc || (c == pc && v == pv),
+                        (Held::Txs(p), Held::Txs(s)) => p.is_subset(s),
+                        (Held::Reg(p), Held::Reg(s)) => p.is_subset(s),
+                        _ => false,
+                    };
+                    if !ok {
+                        cx.violation("realnet:stored-version-differs-after-restart", format!("node {victim} held {} before it was stopped at quiescence and serves {} after the restart", short(&last[kk][victim]), short(&after[kk][victim])), w);
+                    }
+                }
+                cx.count("realnet:c07:holder-restarted-at-quiescence");
+                last = after;
+            }
+        }
+    }
+    if saw_stale_or_invalid && saw_concurrent {
+        cx.nontrivial(&("c07-realnet", cx.index, n, labels.join("|")));
+    }
+    cx.sample(json!({"lane": "real network", "nodes": n, "keys": tracks.len(), "rounds": labels}));
     Some(())
 }
